@@ -42,6 +42,8 @@ def shards_for(tier, seed, parts=("blind", "guided", "gen"), overrides=None):
     if "matrix" in parts or "gen" in parts:
         for k in range(4):
             out.append(("matrix", k, 4))
+        for k in range(16):
+            out.append(("punct2", k, 16))
     return out
 
 
@@ -108,6 +110,62 @@ def matrix_cases():
                     yield req + toks[:at] + [variant] + par + toks[at:]
 
 
+PUNCT2_TEMPLATES = [
+    b'if anyof ( true , false ) { keep ; stop ; }',
+    b'if true { if true { keep ; } } stop ;',
+    b'require [ "fileinto" , "copy" ] ; fileinto :copy "a" ;',
+    b'if header [ "a" , "b" ] "c" { keep ; } else { stop ; }',
+    b'if not anyof ( not allof ( true ) , false ) { keep ; }',
+    b'if true { keep ; } elsif anyof ( true ) { stop ; } else { discard ; }',
+]
+
+
+def _punct_edits(toks):
+    n = len(toks)
+    eds = []
+    for i in range(n):
+        eds.append(("del", i, None))
+        for p in T.PUNCT:
+            if p != toks[i]:
+                eds.append(("rep", i, p))
+    for i in range(n + 1):
+        for p in T.PUNCT:
+            eds.append(("ins", i, p))
+    return eds
+
+
+def _apply_edit(toks, e):
+    kind, i, p = e
+    if kind == "del":
+        return toks[:i] + toks[i + 1:]
+    if kind == "rep":
+        return toks[:i] + [p] + toks[i + 1:]
+    return toks[:i] + [p] + toks[i:]
+
+
+def punct2_cases(k, n):
+    """All single and double punctuation edits (delete a token, replace it by a
+    punctuation token, insert a punctuation token) of a few bracket-rich
+    templates: the bracket stack and the expected-token set under pairs of
+    coordinated errors.  Shard k of n."""
+    cnt = 0
+    for tpl in PUNCT2_TEMPLATES:
+        toks = tpl.split(b" ")
+        eds = _punct_edits(toks)
+        for a, e1 in enumerate(eds):
+            t1 = _apply_edit(toks, e1)
+            cnt += 1
+            if cnt % n == k:
+                yield t1
+            for e2 in _punct_edits(t1):
+                # canonical order: second edit not before the first one's position
+                if e2[1] < e1[1]:
+                    continue
+                cnt += 1
+                if cnt % n == k:
+                    yield _apply_edit(t1, e2)
+
+
 def _judge_of(modname):
     return importlib.import_module(modname).judge
 
@@ -128,6 +186,10 @@ def worker(arg):
     elif kind == "gen":
         _, sd, b = shard
         _gen_shard(judge, col, sd, b)
+    elif kind == "punct2":
+        _, k, n = shard
+        for toks in punct2_cases(k, n):
+            judge(T.join(toks), {"src": "punct2", "toks": toks}, col)
     elif kind == "matrix":
         _, k, n = shard
         for i, toks in enumerate(matrix_cases()):
